@@ -2085,3 +2085,14 @@ Proof.
   split; [apply st_rem|]. split; [apply st_add|]. split; [apply st_chg_iff; assumption|].
   apply st_same_iff; try assumption. apply in_all. exact Hq.
 Qed.
+
+(* ================================================================================================ *)
+(* 7. the second tree's own separator is irrelevant                                                   *)
+
+Lemma get_tree_diff_seps_eq sep sep2 t1 t2 od al :
+  get_tree_diff_seps sep sep2 t1 t2 od al = get_tree_diff sep t1 t2 od al.
+Proof. reflexivity. Qed.
+
+Theorem other_sep_irrelevant sep s s' t1 t2 od al :
+  get_tree_diff_seps sep s t1 t2 od al = get_tree_diff_seps sep s' t1 t2 od al.
+Proof. rewrite !get_tree_diff_seps_eq. reflexivity. Qed.
